@@ -368,3 +368,87 @@ Proof.
     destruct (Hi _ Hin) as [Hk Hv].
     unfold str_ok, str_size in *. repeat split; try assumption; lia.
 Qed.
+
+(* ---------- the shape of a frame ---------- *)
+Lemma frame_fields t x f s z rest :
+  let b := be 4 t ++ be 2 x ++ be 2 f ++ be 4 s ++ be 2 z ++ rest in
+  field_at b 0 4 = unbe (be 4 t) /\ field_at b 4 2 = unbe (be 2 x) /\
+  field_at b 6 2 = unbe (be 2 f) /\ field_at b 8 4 = unbe (be 4 s) /\
+  field_at b 12 2 = unbe (be 2 z) /\
+  take 14 b = be 4 t ++ be 2 x ++ be 2 f ++ be 4 s ++ be 2 z /\ drop 14 b = rest /\
+  len b = 14 + len rest.
+Proof.
+  cbv zeta. repeat split; try reflexivity. rewrite !len_app, !be_len. lia.
+Qed.
+
+Lemma unbe_be2 x : x < 65536 -> unbe (be 2 x) = x.
+Proof. intros H. rewrite unbe_be. change (256 ^ N.of_nat 2) with 65536. apply N.mod_small, H. Qed.
+Lemma unbe_be4 x : x < 4294967296 -> unbe (be 4 x) = x.
+Proof. intros H. rewrite unbe_be. change (256 ^ N.of_nat 4) with 4294967296. apply N.mod_small, H. Qed.
+
+Lemma be4_split hi lo : hi < 65536 -> lo < 65536 -> be 4 (hi * 65536 + lo) = be 2 hi ++ be 2 lo.
+Proof.
+  intros Hh Hl.
+  assert (E : unbe (be 2 hi ++ be 2 lo) = hi * 65536 + lo).
+  { rewrite unbe_app, be_length, !unbe_be2 by assumption. reflexivity. }
+  rewrite <- E.
+  change 4%nat with (length (be 2 hi ++ be 2 lo)) at 1.
+  apply be_unbe. apply wf_app. split; apply be_wf.
+Qed.
+
+Lemma magic_flags fl : fl < 65536 -> be 4 (u32 (c_magic + fl)) = be 2 L_magic16 ++ be 2 fl.
+Proof.
+  intros H. unfold u32, two32. change c_magic with (L_magic16 * 65536). unfold L_magic16.
+  rewrite N.mod_small by lia. apply be4_split; lia.
+Qed.
+
+Lemma div4_exact s : s mod 4 = 0 -> 4 * (s / 4) = s.
+Proof. intros H. pose proof (N.div_mod s 4 ltac:(lia)). lia. Qed.
+
+(* ---------- C06: layout ---------- *)
+Lemma enc_layout tl p b :
+  NoDup (keys (p_str p)) -> params_wf p -> info_size (p_int p) (p_str p) < two32 ->
+  encode tl p = Ok b ->
+  frame (p_flags p) (p_seq p) (p_pid p) (p_int p) (p_str p) b /\
+  len b = L_meta + 4 * field_at b 12 2 /\ len b = L_meta + info_size (p_int p) (p_str p) /\
+  info_size (p_int p) (p_str p) <= L_max.
+Proof.
+  intros Hnd (Hfl & Hsq & Hpid & Hiw & Hsw) Hnw H.
+  rewrite (encode_spec tl p Hnd) in H.
+  set (im := p_int p) in *. set (sm := p_str p) in *.
+  destruct (info_size_props im sm) as (Hsz & Hpad & Hmod).
+  assert (Hu : u32 (info_size im sm) = info_size im sm) by (apply N.mod_small; exact Hnw).
+  rewrite Hu in H. unfold L_max, L_meta in *.
+  destruct (N.ltb_spec 65536 (info_size im sm)) as [Hgt|Hle]; [discriminate|].
+  inversion H as [Hb]; clear H.
+  fold (info_bytes (p_pid p) im sm). pose proof (info_bytes_len (p_pid p) im sm) as Hil.
+  rewrite magic_flags by exact Hfl. rewrite be2_u16. rewrite <- !app_assoc.
+  assert (Hq : info_size im sm / 4 < 65536).
+  { apply N.div_lt_upper_bound; lia. }
+  split; [|split; [|split]].
+  - exists tl, (body im sm), (N.to_nat (pad_of im sm)). cbv zeta.
+    fold (info_bytes (p_pid p) im sm). rewrite Hil.
+    split; [reflexivity|]. split; [|split; [|split; [|split]]].
+    + exists (filter not_gdpr sm), im. repeat split; apply Permutation_refl.
+    + apply body_ok; try assumption. lia.
+    + lia.
+    + exact Hmod.
+    + exact Hle.
+  - destruct (frame_fields tl L_magic16 (p_flags p) (to_unsigned 32 (p_seq p)) (info_size im sm / 4)
+                           (info_bytes (p_pid p) im sm)) as (_ & _ & _ & _ & F12 & _ & _ & Fl).
+    cbv zeta in F12, Fl. rewrite F12, Fl, Hil, unbe_be2 by exact Hq.
+    rewrite div4_exact by exact Hmod. reflexivity.
+  - rewrite !len_app, !be_len, Hil. lia.
+  - exact Hle.
+Qed.
+
+(* success alone already bounds every string and count the format has to represent *)
+Lemma enc_ok_representable tl p b :
+  NoDup (keys (p_str p)) -> params_wf p -> info_size (p_int p) (p_str p) < two32 ->
+  encode tl p = Ok b -> secs_ok (body (p_int p) (p_str p)).
+Proof.
+  intros Hnd Hwf Hnw H. destruct (enc_layout tl p b Hnd Hwf Hnw H) as (_ & _ & _ & Hle).
+  destruct Hwf as (_ & _ & _ & Hiw & Hsw).
+  destruct (info_size_props (p_int p) (p_str p)) as (Hsz & _ & _). unfold L_max in Hle.
+  apply body_ok; try assumption. lia.
+Qed.
